@@ -661,10 +661,20 @@ impl<E: Effect> Executor<E> {
 
         self.processes.insert(id, process);
 
-        // Inject heap data and populate locals with captures
+        // Inject heap data and populate locals with captures. The captures and the argument
+        // share one heap index space, so they are injected together: injecting each value on its
+        // own would allocate the whole heap once per value.
         let captures_count = captures.len();
-        for value in captures {
-            let injected = self.inject_heap_data(value, &heap_data)?;
+        let mut values = captures;
+        values.push(argument);
+        let injected =
+            self.inject_heap_data(Value::tuple(crate::types::NIL, values), &heap_data)?;
+        let Value::Tuple(_, injected) = injected else {
+            unreachable!("injecting a tuple yields a tuple")
+        };
+        let mut injected = (*injected).clone();
+        let injected_arg = injected.pop().expect("the argument was appended above");
+        for injected in injected {
             // Injected into rooted storage (the new frame's locals).
             self.retain(&injected);
             let process = self
@@ -674,7 +684,6 @@ impl<E: Effect> Executor<E> {
         }
 
         // Push argument onto stack
-        let injected_arg = self.inject_heap_data(argument, &heap_data)?;
         self.retain(&injected_arg);
         let process = self
             .get_process_mut(id)
